@@ -6,7 +6,7 @@ CONSTANTS
   Cs = {1, 2, 3, 4, 5}
   ArchG = {1, 2, 6}
   ByOpts = {TRUE, FALSE}
-  SubOpts = {"plain", "sub", "stop"}
+  SubOpts = {"plain", "sub", "stop", "dup"}
   Emit = FALSE
 INVARIANTS InvCanonical InvVerdict InvNoRewrite InvNeverModify InvPreserve InvHoldsActual InvUnquotable InvSecondRun InvShape
 CHECK_DEADLOCK FALSE
